@@ -218,6 +218,13 @@ Section Envelope.
     | inl b => inl (finish e b m (run_phase e b m))
     end.
 
+  (** The state right after the interpreter returned (or after TransitionDb's own vm error). *)
+  Definition after_run (e : env) (s : state) (m : msg) : state :=
+    match pre_check e s m with
+    | inr _ => s
+    | inl b => x_state (run_phase e b m)
+    end.
+
   (** HandleEIP155Transaction = ApplyTransaction + error plumbing.  On a pre-check error nothing has
       been written (the returned state is the input state).  After a successful ApplyMessage the
       StateDB is committed; a recorded overlay error then turns the result into an error. *)
@@ -244,4 +251,4 @@ Arguments mkBought {R}. Arguments b_state {R}. Arguments b_gas {R}. Arguments b_
 Arguments mkRan {R}. Arguments x_state {R}. Arguments x_gas {R}. Arguments x_refund {R}. Arguments x_err {R}.
 Arguments PFail {R}. Arguments PRun {R}. Arguments plan_of {R}. Arguments invocation {R}.
 Arguments buy_gas {R}. Arguments pre_check {R}. Arguments run_phase {R}. Arguments finish {R}.
-Arguments transition_db {R}. Arguments handle_eip155 {R}.
+Arguments after_run {R}. Arguments transition_db {R}. Arguments handle_eip155 {R}.
